@@ -71,9 +71,10 @@ theorem C08_recovery (S : Spec) (hS : S.Coherent) (c : Config) (hc : CfgOK S c) 
     (run S pid (buildProg c) fs).1 = some true ∧
     Good S (run S pid (buildProg c) fs).2.1 ∧
     loadable S c (run S pid (buildProg c) fs).2.1 := by
-  obtain ⟨a, fs', t, es', h1, ⟨ha, hb⟩, _, _⟩ :=
+  obtain ⟨a, fs', t, es', h1, ⟨ha, hb'⟩, _⟩ :=
     triple_buildProg (S := S) (pid := pid) (c := c) (E := fun _ => True) (fun _ _ => trivial) hc.toks_inj
-      (fun _ _ => trivial) hpo [] fs (EnvOK.nil c) (fun _ h => by cases h)
+      (fun _ _ => trivial) hpo [] fs (EnvOK.nil S c _ fs) (fun _ h => by cases h)
+  have hb : fs'.present (c.k "binary") = true := hb' _ (by unfold needed; split <;> simp)
   have hrun : run S pid (buildProg c) fs = (some a, fs', t) := by rw [run_eq_runE, h1]
   have htr : IsTrace pid (buildProg c) t := by
     have := run_isTrace (S := S) (pid := pid) (buildProg c) fs
